@@ -43,6 +43,13 @@ STRENGTHENED = {
  "C07-d": "after start-ups on an address index that lags a few blocks behind the head were added",
  "C18-d": "after wallets loaded from legacy / sparse serialisations (repo fixtures, meta fields dropped) went through the lock-reload-unlock and service encrypt/decrypt cycles, incl. the real default cipher",
  "C22-b": "after the real readLoop was run on scripted connections (new verif hook gnet.VerifReadLoop)",
+ "C05-e": "after histories with three distinct rule sets (unconfirmed / create-block / user burn factor, size, decimals) were added",
+ "C06-e": "after histories with three distinct rule sets (unconfirmed / create-block / user) were added",
+ "C07-e": "after the verbose block queries (by seqs, range, last-n against by-seq) joined the whole-state digest",
+ "C33-e": "after getblocks requests were issued systematically for last in {head-2 .. head+1}",
+ "C10-e": "after r re-encodings (r+n, n, n+1, p-1, p with every recovery id) on every valid signature, the tiny-r family and a crafted-signature genesis path were added (C10 and C14)",
+ "C22-e": "after the whole receive path (handleConnection with the real daemon Handle on a Daemon reduced to its event queue; new verif hooks) was run on bursts and the queued messages looked at after the burst",
+ "C20-e": "first reported without a failing input (translator rejected the source, traced syscalls differ); concrete replay after the retry-after-crash scenarios used real torn prefixes and compared the completed retry with the clean save",
  "C07-b": "after the balance view (GetBalanceOfAddresses) joined the whole-state digest and the model",
 }
 rows = []
